@@ -549,7 +549,8 @@ def fnc1(ctx):
                             bad.append("%s is not copied from self: %s" % (fld, M.show(e, 60) if e else None))
                 obs.append(Ob(r, "setter:" + last, not bad, "%s changes only `%s`, from its parameter; every other option is carried over unchanged" % (last, own), site=M.fmt_span(st["span"]), detail=bad))
             elif last == "new":
-                e = vals
+                # (a default bound to a temporary first is looked through)
+                e = {fld: body.deep(body.expr_of_operand, op) for fld, op in zip(st["rv"]["fields"], st["rv"]["ops"])}
                 ok = e.get("use_macros", ("x",))[:2] == ("const", 1) and e.get("fnc1_start", ("x",))[:2] == ("const", 0) \
                     and any(isinstance(x, tuple) and x[0] == "call" and T.canon(x[1]).endswith("EncodationType::all") for x in M.walk(e.get("encodation_types"))) \
                     and any(isinstance(x, tuple) and x[0] == "call" and T.canon(x[1]).endswith("Default>::default") for x in M.walk(e.get("symbol_list")))
